@@ -243,7 +243,7 @@ func init() {
 		Name: "streams", Weight: 1,
 		N: func(tier string, seed uint64) uint64 {
 			if tier == "thorough" {
-				return 3000000
+				return 24000000
 			}
 			return 200000
 		},
